@@ -37,6 +37,8 @@ const MAXDEN: i64 = 40_000;
 const LENSES: [&str; 4] = ["iter", "eval", "fval", "obj"];
 /// code of the number 0 on the signed lenses
 const SOFF: i64 = 100_000;
+/// code of "not a number" on the float lenses (value seen or bound)
+const NANV: i64 = 900_000;
 
 type Cond = Box<dyn Condition<CondProblem>>;
 
@@ -109,13 +111,13 @@ fn fr(p: Option<f64>) -> Value {
 fn project(st: &St) -> (Value, Value) {
     let it = st.try_get_value::<Iterations>().map(|v| v as i64).unwrap_or(NOVAL);
     let ev = st.try_get_value::<Evaluations>().map(|v| v as i64).unwrap_or(NOVAL);
-    let fv = st.try_get_value::<FVal>().map(|v| exact_int(v, 2.0)).unwrap_or(NOVAL);
+    let fv = st.try_get_value::<FVal>().map(|v| if v.is_nan() { NANV } else { exact_int(v, 2.0) }).unwrap_or(NOVAL);
     let ob = if !st.contains::<BestIndividual<CondProblem>>() {
         GONE
     } else {
         st.best_objective_value().map(|o| exact_int(o.value(), 4.0)).unwrap_or(NOVAL)
     };
-    let halves = |v: f64| if (v * 2.0).fract() == 0.0 && v.abs() < 1e9 { SOFF + (v * 2.0) as i64 } else { -7 };
+    let halves = |v: f64| if v.is_nan() { NANV } else if (v * 2.0).fract() == 0.0 && v.abs() < 1e9 { SOFF + (v * 2.0) as i64 } else { -7 };
     let sv = st.try_get_value::<SVal>().map(halves).unwrap_or(NOVAL);
     let iv = st.try_get_value::<IVal>().map(|v| SOFF + v as i64).unwrap_or(NOVAL);
     let obs = json!({"iter": it, "eval": ev, "fval": fv, "obj": ob, "sval": sv, "ival": iv});
@@ -134,6 +136,9 @@ fn project(st: &St) -> (Value, Value) {
 
 /// The float a code of lens "sval" stands for; `nz`: its zero is -0.0.
 fn sval_of(c: i64, nz: bool) -> f64 {
+    if c == NANV {
+        return f64::NAN;
+    }
     let x = (c - SOFF) as f64 * 0.5;
     if nz && x == 0.0 {
         -0.0
@@ -146,7 +151,7 @@ fn lt_cond(l: &str, n: i64, nz: bool) -> Cond {
     match l {
         "iter" => LessThanN::iterations(n as u32),
         "eval" => LessThanN::evaluations(n as u32),
-        "fval" => LessThanN::new(n as f64 * 0.5, ValueOf::<FVal>::new()),
+        "fval" => LessThanN::new(if n == NANV { f64::NAN } else { n as f64 * 0.5 }, ValueOf::<FVal>::new()),
         "sval" => LessThanN::new(sval_of(n, nz), ValueOf::<SVal>::new()),
         "ival" => LessThanN::new((n - SOFF) as i32, ValueOf::<IVal>::new()),
         other => panic!("less-than-n: unknown lens {other}"),
@@ -282,6 +287,7 @@ fn set_obs(st: &mut St, l: &str, v: i64, nz: bool) {
         ("eval", NOVAL) => drop(st.remove::<Evaluations>()),
         ("eval", v) => drop(st.insert(Evaluations(v as u32))),
         ("fval", NOVAL) => drop(st.remove::<FVal>()),
+        ("fval", NANV) => drop(st.insert(FVal(f64::NAN))),
         ("fval", v) => drop(st.insert(FVal(v as f64 * 0.5))),
         ("obj", GONE) => drop(st.remove::<BestIndividual<CondProblem>>()),
         ("obj", NOVAL) => set_best(st, None),
@@ -325,7 +331,7 @@ pub fn exec(st: &mut St, a: &Value) -> Value {
             // Loop(while less-than-n(signed lens), body raising the value by d units per pass), run as a
             // configuration run does; the caps turn a loop that does not end into data
             let v0 = match l {
-                "sval" => st.try_get_value::<SVal>().map(|v| SOFF + (v * 2.0) as i64).unwrap_or(n),
+                "sval" => st.try_get_value::<SVal>().map(|v| if v.is_nan() { n } else { SOFF + (v * 2.0) as i64 }).unwrap_or(n),
                 _ => st.try_get_value::<IVal>().map(|v| SOFF + v as i64).unwrap_or(n),
             };
             let cap = ((n - v0).max(0) / d.max(1)) + 16;
@@ -590,7 +596,23 @@ fn random_step(run: &mut Run, g: &mut impl Rng, big: bool) {
             g.gen_range(0..=nmax)
         }
     }
-    match g.gen_range(0..121) {
+    match g.gen_range(0..125) {
+        121..=124 => {
+            // float lenses: a value (or a bound) that is not a number, then less-than-n / change-of / a loop on it
+            let l = ["fval", "sval"][g.gen_range(0..2)];
+            let some = |g: &mut dyn rand::RngCore| if l == "sval" { SOFF + g.gen_range(-6..=6) } else { g.gen_range(0..=8) };
+            let (v, n) = match g.gen_range(0..4) {
+                0 => (NANV, NANV),
+                1 => (some(g), NANV),
+                _ => (NANV, some(g)),
+            };
+            run.call(act("set", l, NOVAL, NOVAL, "-", v, NOVAL, NOVAL));
+            match g.gen_range(0..4) {
+                0 => drop(run.call(act("co", l, NOVAL, NOVAL, "-", NOVAL, NOVAL, NOVAL))),
+                1 if l == "sval" && n != NANV => drop(run.call(act("sloop", l, n, g.gen_range(1..=3), "-", NOVAL, NOVAL, NOVAL))),
+                _ => drop(run.call(act("lt", l, n, NOVAL, "-", NOVAL, NOVAL, NOVAL))),
+            }
+        }
         107..=120 => {
             // signed lenses: negative, zero (either sign) and fractional values and bounds
             let l = ["sval", "ival"][g.gen_range(0..2)];
